@@ -274,7 +274,23 @@ fn sectors(d: &mut Dec, cx: &mut Cx) -> Res {
 /// shows at display scale.
 fn large_shapes(d: &mut Dec, cx: &mut Cx) -> Res {
     let kind = d.pick(&[1u32, 2, 3, 4, 7, 0]);
-    let s = gen::large_shape(d, kind, 100, 500);
+    let mut s = gen::large_shape(d, kind, 100, 500);
+    if let Shape::Triangle(t) = &mut s {
+        // the statement covers triangles with non-zero area only
+        let [a, b, c] = &mut t.vertices;
+        if a == b {
+            b.x += 1;
+        }
+        let mut k = 0;
+        while orient(*a, *b, *c) == 0 {
+            if k % 2 == 0 {
+                c.y += 1;
+            } else {
+                c.x += 1;
+            }
+            k += 1;
+        }
+    }
     cx.describe(|| format!("{:?}", s));
     cx.class(s.kind());
     let r = check_shape(&s)?;
